@@ -74,6 +74,21 @@ def families(tier, rng):
     return fam
 
 
+def overlap_sessions():
+    """Account lookups that take a few loop iterations (a user manager that awaits) and USER sent again meanwhile: whichever
+    lookup finishes first, every slot taken is given back when the login is superseded or the session ends."""
+    out = []
+    for pre in ([], [["send", 1, "USER u2"]], [["send", 1, "USER u1"], ["send", 1, "PASS pw1"]]):
+        for a in ("u2", "u1", "u3", "nobody"):
+            for b in ("u2", "u1", "u3", "nobody"):
+                for gap in (0, 1, 3, 6):
+                    for end in (["send", 1, "QUIT"], ["vanish", 1], None):
+                        out.append([["connect", 1]] + pre + [["nq", ["send", 1, "USER " + a]], ["iter", gap], ["nq", ["send", 1, "USER " + b]], ["tick", 0]]
+                                   + ([end] if end else []) + [["connect", 2], ["send", 2, "USER u2"], ["connect", 3], ["send", 3, "USER u1"],
+                                                               ["connect", 4], ["send", 4, "USER u3"], ["srvclose"]])
+    return out
+
+
 def dev_cfg(pool):
     return gen.std_cfg(ns=4, users=USERS, srvmax=2, idle=3000)
 
@@ -89,6 +104,10 @@ def run(tier, seed):
     for srvmax, idle in ((1, 3000), (2, 3000), (3, 0), (0, 3000)) if tier != "quick" else ((1, 3000), (2, 0)):
         cfg = gen.std_cfg(ns=4, users=USERS, srvmax=srvmax, idle=idle)
         corecheck.validate(chk, cfg, gen.STD_TREE, scheds, label="limits:srv%d:idle%d" % (srvmax, idle))
+    ov = overlap_sessions()
+    for tag, delays in (("even", {"*": 2}), ("first-slower", {"u2": 5, "nobody": 6, "*": 1}), ("second-slower", {"u3": 5, "u1": 4, "*": 1})):
+        corecheck.validate(chk, gen.std_cfg(ns=4, users=USERS, srvmax=0, slow_user=delays), gen.STD_TREE, ov if tier != "quick" else ov[::3],
+                           label="overlapped-user:" + tag)
     gs, steps = guide.behaviours("MC_GuideRes", "MC_GuideRes", 1500 if tier == "quick" else 20000, 60, seed + 13)
     corecheck.validate(chk, gen.std_cfg(ns=3, users=guide.RES_USERS, srvmax=2, usepool=True, ports=[3001]), guide.RES_TREE, gs, label="tlc-guided")
     chk.notes["tlc_generated_behaviours"] = len(gs)
